@@ -63,6 +63,21 @@ def sa_closure_game(rng, n: int, kind: str = "int", neg_singletons: bool = True,
     return v
 
 
+def sa_zero_rich_game(rng, n: int):
+    """Superadditive integer game with many exact zeros and mixed signs: singletons in -2..2, interior = best split + (0|0|0|1|2)."""
+    v = [0] * (2 ** n)
+    for s in ids_by_size(n):
+        if s == 0:
+            continue
+        if popcount(s) == 1:
+            v[s] = rng.randint(-2, 2)
+            continue
+        base = max(v[a] + v[s ^ a] for a in proper_splits(s))
+        # a coalition whose parts are worth less than nothing is often worth exactly nothing
+        v[s] = 0 if (base < 0 and rng.random() < 0.6) else base + rng.choice([0, 0, 0, 1, 2])
+    return v
+
+
 def unanimity_game(rng, n: int, terms: int = 4):
     """Sum of unanimity games with non-negative integer coefficients (convex, hence SA)."""
     v = [0] * (2 ** n)
